@@ -843,10 +843,41 @@ def do_fieldops(p):
         print(json.dumps(row, default=str), flush=True)
 
 
+# ------------------------------------------------------------------ mode: unpack
+def do_unpack(p):
+    """The eager reference for packed variables: cfdm's own netcdf_indexer applied to the WHOLE array in
+    memory (a numpy array and an attribute dictionary: no file, no backend, no laziness, no subspace).
+    Which data type and values unpacking should give is C07's subject; C12's is that lazy access through
+    the file arrays gives this."""
+    for k, v in enumerate(p["vars"]):
+        row = {"i": k}
+        try:
+            dt = np.dtype(v.get("dtype", "i8"))
+            a = np.array([0 if x is None else x for x in v["flat"]], dtype=dt).reshape(v["shape"])
+            pack = v.get("pack") or {}
+            attrs = {}
+            if pack.get("unsigned"):
+                attrs["_Unsigned"] = "true"
+            if pack.get("scale"):
+                attrs["scale_factor"] = np.array(pack["scale"][1], dtype=pack["scale"][0])[()]
+            if pack.get("offset"):
+                attrs["add_offset"] = np.array(pack["offset"][1], dtype=pack["offset"][0])[()]
+            with np.errstate(all="ignore"):
+                out = cfdm.netcdf_indexer(a, mask=False, unpack=True, attributes=attrs)[...]
+            out = np.asanyarray(out)
+            row["dtype"] = out.dtype.str[1:]
+            row["flat"] = [x if isinstance(x, int) else (int(x) if float(x).is_integer() else repr(x))
+                           for x in out.ravel().tolist()]
+            row["shape"] = list(out.shape)
+        except Exception as ex:
+            row["err"] = type(ex).__name__ + ": " + str(ex)[:200]
+        print(json.dumps(row), flush=True)
+
+
 def main():
     p = json.load(sys.stdin)
     cfdm.log_level("DISABLE")
-    {"ops": do_ops, "read": do_read, "fieldops": do_fieldops}[p["mode"]](p)
+    {"ops": do_ops, "read": do_read, "fieldops": do_fieldops, "unpack": do_unpack}[p["mode"]](p)
 
 
 main()
